@@ -197,9 +197,45 @@ run_assignable (const char *name)
   expect (same (u, us) && same (w, ws), name, "swap");
 }
 
+// --- value-initialisation of trivially constructible types whose null value is not all-zero
+//     bytes (pointers to data members), alone and inside a trivial aggregate
+struct rec { int a; int b; };
+struct selector { int rec::*which; int weight; };
+static bool operator== (const selector& x, const selector& y) { return x.which == y.which && x.weight == y.weight; }
+
+template <class T, unsigned N>
+static void
+run_value_init (const char *name)
+{
+  typedef gch::small_vector<T, N> V;
+  const T zero = T ();
+  V v (3);
+  bool ok = v.size () == 3;
+  for (std::size_t i = 0; ok && i < v.size (); ++i)
+    ok = v[i] == zero;
+  expect (ok, name, "V(n) value-initialises every element");
+  v.resize (10);
+  ok = v.size () == 10;
+  for (std::size_t i = 0; ok && i < v.size (); ++i)
+    ok = v[i] == zero;
+  expect (ok, name, "resize(n) value-initialises the new elements (reallocating)");
+  v.resize (2);
+  v.resize (7);
+  ok = v.size () == 7;
+  for (std::size_t i = 0; ok && i < v.size (); ++i)
+    ok = v[i] == zero;
+  expect (ok, name, "resize(n) value-initialises the new elements (in place)");
+  v.emplace_back ();
+  expect (v.back () == zero, name, "emplace_back() value-initialises");
+}
+
 int
 main (void)
 {
+  run_value_init<int rec::*, 0> ("int rec::*"); run_value_init<int rec::*, 4> ("int rec::*");
+  run_value_init<selector, 0> ("selector{int rec::*, int}"); run_value_init<selector, 4> ("selector{int rec::*, int}");
+  run_value_init<double, 3> ("double"); run_value_init<void *, 3> ("void*");
+  run_value_init<int (rec::*) (void), 2> ("int (rec::*)()");
   run_a1<0> (); run_a1<2> (); run_a1<16> ();
   run_a2<0> (); run_a2<2> (); run_a2<16> ();
   run_a3<0> (); run_a3<2> (); run_a3<16> ();
